@@ -9,3 +9,28 @@ add("C04", "model_checking", "SEQ",
     "Every history of begin(level)/read/write/commit/abort/gc within bounds is executed on the real TransactionManager; the direct serialization graph (ww, wr, rw) of the committed Serializable transactions must be acyclic and forward in commit order, the SSI refusal must occur exactly where the statement requires it, and read-only / non-overlapping transactions must not be refused.",
     "Data semantics of a read (which version it observes) are attached by the harness. Bounded as recorded in evidence.bounds.",
     "DESIGN.md §3/C04")
+add("C13", "model_checking", "SEQ",
+    "explicit-state model checking of the real RdfStore: BFS to closure over insert/remove/clear/transaction-buffer histories on a small colliding triple universe, both object-index settings, all 8 pattern shapes probed after every transition",
+    "Every reachable state of the real RdfStore over a 6-8 triple universe (IRIs, blank node, plain / language-tagged / typed literals chosen to collide in every index) is visited by BFS until closure; after every transition all 8 bound/unbound pattern shapes x all term choices (plus an absent term per position) and every other accessor are compared with a BTreeSet of triples: exactly the matching triples, once each.",
+    "Store layer only at this commit; the SPARQL evaluation layer is described in DESIGN.md and listed in evidence when present. Universe and pending-buffer bounds as recorded in evidence.store_layers.",
+    "DESIGN.md §3/C13")
+add("C14", "model_checking", "SEQ",
+    "explicit-state model checking of the real LpgStore / GrafeoDB: BFS over mutation histories in four layers (structure, property+index+zone-map, adjacency thresholds, database), cross-accessor agreement and a reference graph checked after every transition",
+    "Every history up to the stated depth over create/delete node and edge (self-loops, parallel edges), labels, properties over a value alphabet incl. NaN/-0.0/Null, index create/drop, zone-map rebuild, statistics refresh, and macro events crossing the 64-entry adjacency thresholds is executed on the real store, with and without backward adjacency; after every transition label lookup, neighbour lists and degrees in both directions, point lookups, property lookup by index vs scan, range lookup, min/max pruning soundness, counts and statistics are compared with a dumb reference graph.",
+    "Store-level delete_node is issued on detached nodes only (documented as non-cascading); pruning soundness counts same-variant comparisons as definite matches only. Bounds per layer in evidence.layers.",
+    "DESIGN.md §3/C14")
+add("C15", "exploration", "ENUM",
+    "bounded-exhaustive input enumeration: every sequence up to length 4-6 over boundary alphabets, pattern x length families at word/block boundaries, every bit width 0..=64, BFS over BitVector / property-column / adjacency histories, against round-trip, random-access, iterator, byte-image and truncation identities on the real codecs",
+    "Exhaustive over the stated finite products (about 1.7M cases quick / 23M thorough): decode(encode(x)) == x, get(i) == decode()[i], iterators agree, to_bytes/from_bytes round-trips, every truncation of a valid block is rejected or self-consistent, the codec selector round-trips whatever it picks, compressed property columns and cold adjacency chunks read the same as uncompressed ones.",
+    "epoch_store (feature tiered-storage) and succinct structures (feature succinct-indexes) are not compiled in any shipped build and are not checked; truncation covers every strict prefix for blocks up to 1100 bytes and a stated subset above.",
+    "DESIGN.md §3/C15")
+add("C16", "exploration", "ENUM",
+    "bounded-exhaustive enumeration: all singles/pairs/triples of a boundary value alphabet through the real wrapper types, all values plus a bit-pattern sweep through every Rust-side serialisation, all pairs/triples through the real indexes and DISTINCT / GROUP BY / sort operators",
+    "Exhaustive over the stated alphabet (64/167 values: all pairs and triples) and sweep (1.7e4/2.6e5 values x 9 serialisation paths): equivalence / hash / total-order laws of HashableValue, OrderableValue, OrderedFloat64 and the B-tree float key; bit-for-bit survival through bincode, spill serializer, spill file, WAL log+recovery, close/reopen, snapshot export/import, save/open; real containers never split an equal pair or merge an unequal one.",
+    "JSON conversions of crates/bindings are outside the dependency set; cross-variant sort order and NaN position are recorded as information only.",
+    "DESIGN.md §3/C16")
+add("C19", "exploration", "ENUM",
+    "bounded-exhaustive enumeration of all small labelled directed multigraphs x weight assignments x endpoints against brute-force oracles (path, subset, cut and integral-flow enumeration) on the real algorithm functions and ShortestPathOperator",
+    "Exhaustive within: up to 3 nodes and 3 edges plus 4 nodes with 4 unit-weight edges (quick); up to 3 nodes and 4 edges, 4 nodes and 3 edges, 4 nodes with 4 edges of weight {1,2}, Int64 weights (thorough); weights {1,2,0,missing}, -1 for Bellman-Ford / Floyd-Warshall, (capacity, cost) pairs for min-cost flow; every source/target.",
+    "Input enumeration rather than state-space search; heuristic algorithms (community detection) checked for structural sanity and the modularity value only; listed under-determined conventions are tolerated and counted in evidence.",
+    "DESIGN.md §3/C19")
